@@ -428,6 +428,11 @@ EvGuards(e) ==
             { G("DRIFT", e.endpoint = (IF e.name \in DOMAIN after THEN after[e.name] ELSE "")) }
       [] e.k = "t.accept" -> TopicAccept_G(e.ti, e.ids, SeqSet(e.fan))
       [] e.k = "t.attach" ->
+            IF "skipped" \in DOMAIN e /\ e.skipped
+            THEN \* the topic refused the attach: only a subscription that is on its way out may be refused
+                 TopicAttach_G(e.ti, e.name, e.si) \cup
+                 { G("C11", e.si \in DOMAIN S => S[e.si].st # "live") }
+            ELSE
             TopicAttach_G(e.ti, e.name, e.si) \cup
             { G("DRIFT", e.ti \in DOMAIN T => SeqSet(e.attached) = Rng(PutIfAbsent(T[e.ti].att, e.name, e.si))) }
       [] e.k = "t.remove" ->
@@ -585,7 +590,9 @@ EvApply(e) ==
          [] e.k = "m.rs" -> MgrRemoveSub_A(e.name, e.si)
          [] e.k = "r.set" -> RegSet_A(e.name, e.set, e.endpoint)
          [] e.k = "t.accept" -> TopicAccept_A(e.ti, e.ids, SeqSet(e.fan))
-         [] e.k = "t.attach" -> TopicAttach_A(e.ti, e.name, e.si)
+         [] e.k = "t.attach" -> IF "skipped" \in DOMAIN e /\ e.skipped
+                                THEN UNCHANGED <<tmap, smap, T, S, torder, sorder, reg, pubs>>
+                                ELSE TopicAttach_A(e.ti, e.name, e.si)
          [] e.k = "t.remove" -> TopicRemove_A(e.ti, e.name)
          [] e.k = "t.delete" -> TopicDelete_A(e.ti, e.first)
          [] e.k \in {"s.post", "s.pull", "s.ack", "s.mod", "s.expire", "s.stats"} ->
